@@ -90,6 +90,29 @@ CHECKS['C02'] = dict(level='translation_validation', engine='lirsym/qbe + lirsym
    technique='SMT-decided back-end agreement: the emitted QBE IL and the emitted .wasm binary of the same function executed symbolically on the same inputs, pairwise path comparison, all parameter values, z3',
    text='For a generated family of template functions (arithmetic, comparisons, casts incl. directly consumed narrowing casts, unguarded division/remainder, control flow, composites, references, dynamic arrays and strings, struct layout) the freshly built compiler emits native code (QBE IL, pointer size 8) and a .wasm module (pointer size 4). The IL and the decoded wasm function are executed symbolically on the same free 64-bit inputs; for every pair of paths z3 decides that termination class (normal / panic-or-trap), returned value and printed values agree. Counterexamples and one witness per template are replayed on the linked native executable and under node with the shipped runtime.js.',
    note='Trusted: z3; go/ssa; the gosym interpreter; intrinsics; harness oracles. Front-end harnesses run the REAL lexer, parser, collector, resolver and type checker (go/ssa) inside the symbolic interpreter on programs assembled from symbolic choices / symbolic characters; within the stated finite product the exploration is exhaustive, nothing beyond it is claimed. NOT decided: what an accepted reformatted program prints, doc-comment / @extern attachment, programs outside the fixed set, multi-character comment bodies, tabs in the position obligation (known finding D10).')
+# additions of the third seeding round (appended to the texts above)
+EXTRA = {
+ 'C01': ' Families added later: optional narrowing (if x != none: read / assign the narrowed parameter or local), closures that capture parameters and locals by reference (modified before / around the literal, counter incremented by the literal), literal spellings (leading zeros, separators, hex, octal, binary), same-width sign-changing casts used directly.',
+ 'C02': ' Also: literal spellings (a decimal literal with leading zeros must have the same value on both targets), optional narrowing, closures where the wasm target accepts them, small byte-aligned composite copies.',
+ 'C04': ' Also loops whose index counts DOWN through the negative indices (-1 .. -N valid, -(N+1) must panic or be rejected).',
+ 'C05': ' Also match statements whose default arm is not the last arm, and methods that share their name with a top-level function of another signature.',
+ 'C06': ' HarnessC06Receivers: 11 struct-typed places (const, element / field of a const, value behind &P parameter / receiver / local, struct field of type &P | let, let array element, &\'P parameter / local) x 8 mutation forms incl. calls of &\'-receiver methods x 5 contexts. HarnessC06FnTypes: a function writing through a &\'P parameter supplied where fn(q: &P) is expected, 6 positions x named function / literal.',
+ 'C07': ' HarnessC07Escapes: returning a reference to a local (initialised or declared bare, whole or field, direct or through a reference variable, 3 contexts) is rejected; returning a received reference is accepted.',
+ 'C08': ' u32 index type in the quick tier; the known-finding region of D5 is exactly the inputs whose narrowed index lands on an element, the obligation is re-asked outside it.',
+ 'C09': ' Fifth rewrite: bind the first nested cast to a fresh local (bases: casts consumed directly by a compare or a widening cast, incl. same-width sign changes).',
+ 'C10': ' HarnessC10Sequence: two range checks in one compilation (boundary texts of one width against its signed and unsigned type, either order) - the verdict has no memory.',
+ 'C12': ' HarnessC12Modules now covers 31 positions of a cross-module name (type annotations, struct field types, aliases, interface signatures, array / optional / map / result / reference / function types, array length, range bounds, index, match pattern, ?? default, multi-item declarations).',
+ 'C13': ' HarnessC13Highlight: the snippet colouriser on every line of <= 4 characters over its 10 scanner-relevant characters. HarnessC13CodegenFailure: the native code generation phase under environment stubs (mkdir, write, embedded QBE exit code, linker fail by free choice): an error return implies an error diagnostic.',
+ 'C14': ' HarnessC14WasmOrder: wasm EmitProgram on three-module programs with same-named functions under both map iteration orders: byte-identical binary.',
+ 'C15': ' HarnessC15Order: every acyclic graph over 5 modules (6 thorough): the topological order lists each module once, dependencies first.',
+ 'C17': ' Also the map-literal constructor ferret_map_from_pairs on 2 (3 thorough) symbolic pairs whose keys may coincide.',
+ 'C18': ' Also whole-value copies of byte-aligned composites of 2, 3, 6, 7 bytes (struct assigned into a fixed-array element, struct wrapped into / read out of an optional, discriminant set / cleared / set).',
+ 'C19': ' Non-ASCII comment text (2- and 3-byte UTF-8 characters): columns advance by characters, indices by bytes (gap harness and Position.Advance kernel).',
+ 'C16': ' pow: INIT/STEP/EXIT on the real square-and-multiply loop for all four types (the 128-bit ones through their register ABI).',
+}
+for _k, _v in EXTRA.items():
+    CHECKS[_k]['text'] += _v
+
 NA_DEFAULT = 'check not built yet (work in progress, see DESIGN.md section 11)'
 NA = {}
 
